@@ -91,14 +91,15 @@ class Check:
     def finish(self) -> int:
         # instance floors: a rule matching fewer sites than confirmed by hand is an analysis error
         counts: dict[str, int] = {}
+        short: list[str] = []
         for o in self.obs:
             counts[o.rule] = counts.get(o.rule, 0) + 1
         for rid, floor in self.floors.items():
             if not self.want(rid):
                 continue
             if counts.get(rid, 0) < floor:
-                raise AnalysisError(f"rule {rid} produced {counts.get(rid, 0)} obligations, floor is {floor} "
-                                    f"(a rule that matches nothing passes vacuously)")
+                short.append(f"rule {rid} produced {counts.get(rid, 0)} obligations, floor is {floor} "
+                             f"(a rule that matches nothing passes vacuously)")
         known = load_known()
         open_keys = {}
         for k in known:
@@ -113,8 +114,11 @@ class Check:
                 known_hits.append(o)
             else:
                 violations.append(o)
+        if short and not violations:
+            # a shortfall alone is an analysis error; next to a concrete violation it is only reported
+            raise AnalysisError("; ".join(short))
         os.makedirs(os.path.join(VERIF, "replay"), exist_ok=True)
-        lines = []
+        lines = [f"note: {x}" for x in short]
         for o in known_hits:
             lines.append(f"KNOWN-FINDING: property={self.pid} {o.rule} {o.module}:{o.function} {o.what}")
         seen = set()
